@@ -817,6 +817,9 @@ package tbtc
 //@   assert call:BridgeChain.ComputeMainUtxoHash : [candidate-pays-the-wallet] bytesEqual(output.PublicKeyScript, walletP2PKH) || bytesEqual(output.PublicKeyScript, walletP2WPKH)
 //@   assert call:BridgeChain.ComputeMainUtxoHash : [candidate-comes-from-the-wallet-history] transaction == @txOf(btcChain, txHashes[i]) && 0 <= i && i < len(txHashes) && 0 <= outputIndex && outputIndex < len(transaction.Outputs) && output == transaction.Outputs[outputIndex]
 //@   loop 1 invariant i >= -1 && i < len(txHashes)
+//@   loop 1 invariant [no-match-in-the-transactions-already-searched] forall k int, o int :: i < k && k < len(txHashes) && 0 <= o && o < len(@txOf(btcChain, txHashes[k]).Outputs) ==> !((bytesEqual(@txOf(btcChain, txHashes[k]).Outputs[o].PublicKeyScript, walletP2PKH) || bytesEqual(@txOf(btcChain, txHashes[k]).Outputs[o].PublicKeyScript, walletP2WPKH)) && @utxoHashOf(bridgeChain, @txOf(btcChain, txHashes[k]).Hash(), o, @txOf(btcChain, txHashes[k]).Outputs[o].Value) == walletChainData.MainUtxoHash)
+//@   loop 2 invariant [no-match-in-the-outputs-already-searched] forall o int :: 0 <= o && o < rangeidx2 ==> !((bytesEqual(@txOf(btcChain, txHashes[i]).Outputs[o].PublicKeyScript, walletP2PKH) || bytesEqual(@txOf(btcChain, txHashes[i]).Outputs[o].PublicKeyScript, walletP2WPKH)) && @utxoHashOf(bridgeChain, @txOf(btcChain, txHashes[i]).Hash(), o, @txOf(btcChain, txHashes[i]).Outputs[o].Value) == walletChainData.MainUtxoHash)
+//@   assert call:Errorf@6 : [not-found-only-if-no-wallet-output-of-the-history-matches] forall k int, o int :: 0 <= k && k < len(txHashes) && 0 <= o && o < len(@txOf(btcChain, txHashes[k]).Outputs) ==> !((bytesEqual(@txOf(btcChain, txHashes[k]).Outputs[o].PublicKeyScript, walletP2PKH) || bytesEqual(@txOf(btcChain, txHashes[k]).Outputs[o].PublicKeyScript, walletP2WPKH)) && @utxoHashOf(bridgeChain, @txOf(btcChain, txHashes[k]).Hash(), o, @txOf(btcChain, txHashes[k]).Outputs[o].Value) == walletChainData.MainUtxoHash)
 
 // >>> generated by tools/gen_unmarshal_contracts.py (do not edit by hand)
 // C19 safety sweep: decoding any byte string returns an error or a value, and never panics.
@@ -920,3 +923,102 @@ package tbtc
 //@   modifies ghost.archives, ghost.lastArchivedKey
 //@   ensures [memory-forgets-a-wallet-only-after-storage-archived-it] err == nil ==> ghost.archives == old(ghost.archives) + 1
 //@   ensures [nothing-is-archived-on-error-paths-before-storage] ghost.archives == old(ghost.archives) ==> err != nil
+
+// ---------------------------------------------------------------------------
+// C26: wallet transactions conserve value and pay only the intended scripts.
+// The transaction builder is observed through a ghost ledger: txIn / txOut are
+// the totals of the inputs added and outputs added so far, txIns / txOuts their
+// counts, txLastIn / txLastOut the last added input UTXO / output.
+// ---------------------------------------------------------------------------
+//@ ghost txIn int
+//@ ghost txOut int
+//@ ghost txIns int
+//@ ghost txOuts int
+//@ ghost txLastIn ref
+//@ ghost txLastOut ref
+//@ spec func p2wpkhOf(h [20]byte) bitcoin.Script
+//@ assume func github.com/keep-network/keep-core/pkg/bitcoin.NewTransactionBuilder
+//@   modifies ghost.txIn, ghost.txOut, ghost.txIns, ghost.txOuts, alloc
+//@   ensures result != nil && ghost.txIn == 0 && ghost.txOut == 0 && ghost.txIns == 0 && ghost.txOuts == 0
+//@ assume func github.com/keep-network/keep-core/pkg/bitcoin.TransactionBuilder.AddPublicKeyHashInput
+//@   modifies ghost.txIn, ghost.txIns, ghost.txLastIn
+//@   ensures result == nil ==> ghost.txIn == old(ghost.txIn) + utxo.Value && ghost.txIns == old(ghost.txIns) + 1 && ghost.txLastIn == utxo
+//@   ensures result != nil ==> ghost.txIn == old(ghost.txIn) && ghost.txIns == old(ghost.txIns)
+//@ assume func github.com/keep-network/keep-core/pkg/bitcoin.TransactionBuilder.AddScriptHashInput
+//@   modifies ghost.txIn, ghost.txIns, ghost.txLastIn
+//@   ensures result == nil ==> ghost.txIn == old(ghost.txIn) + utxo.Value && ghost.txIns == old(ghost.txIns) + 1 && ghost.txLastIn == utxo
+//@   ensures result != nil ==> ghost.txIn == old(ghost.txIn) && ghost.txIns == old(ghost.txIns)
+//@ assume func github.com/keep-network/keep-core/pkg/bitcoin.TransactionBuilder.AddOutput
+//@   modifies ghost.txOut, ghost.txOuts, ghost.txLastOut
+//@   ensures ghost.txOut == old(ghost.txOut) + output.Value && ghost.txOuts == old(ghost.txOuts) + 1 && ghost.txLastOut == output
+//@ assume func github.com/keep-network/keep-core/pkg/bitcoin.TransactionBuilder.TotalInputsValue
+//@   ensures result == ghost.txIn
+//@ assume func github.com/keep-network/keep-core/pkg/bitcoin.PayToWitnessPublicKeyHash
+//@   ensures err == nil ==> result0 == @p2wpkhOf(arg0)
+
+//@ func assembleDepositSweepTransaction
+//@   property C26
+//@   arith math
+//@   opt noframe 1
+//@   requires forall k int :: 0 <= k && k < len(deposits) ==> deposits[k] != nil && deposits[k].Utxo != nil
+//@   modifies ghost.txIn, ghost.txOut, ghost.txIns, ghost.txOuts, ghost.txLastIn, ghost.txLastOut, alloc
+//@   ensures [spends-exactly-the-main-utxo-and-every-deposit] err == nil ==> ghost.txIns == len(deposits) + ite(walletMainUtxo != nil, 1, 0)
+//@   ensures [pays-exactly-the-proposed-fee] err == nil ==> ghost.txIn - ghost.txOut == fee
+//@   ensures [single-output-to-the-wallets-own-witness-script] err == nil ==> ghost.txOuts == 1 && unbox(ghost.txLastOut, *bitcoin.TransactionOutput).PublicKeyScript == @p2wpkhOf(@pkhOf(walletPublicKey))
+//@   assert call:TransactionBuilder.AddScriptHashInput : [each-deposit-utxo-is-spent-with-its-own-script] arg0 == deposits[i].Utxo && arg1 == depositScript
+//@   assert call:TransactionBuilder.AddPublicKeyHashInput : [the-main-utxo-is-spent] arg0 == walletMainUtxo
+//@   loop 1 invariant ghost.txIns == rangeidx1 + ite(walletMainUtxo != nil, 1, 0) && ghost.txOuts == 0 && ghost.txOut == 0
+
+//@ func assembleMovedFundsSweepTransaction
+//@   property C26
+//@   arith math
+//@   opt noframe 1
+//@   modifies ghost.txIn, ghost.txOut, ghost.txIns, ghost.txOuts, ghost.txLastIn, ghost.txLastOut, alloc
+//@   ensures [spends-exactly-the-moved-funds-and-main-utxos] err == nil ==> ghost.txIns == 1 + ite(walletMainUtxo != nil, 1, 0) && ghost.txIn == movedFundsUtxo.Value + ite(walletMainUtxo != nil, walletMainUtxo.Value, 0)
+//@   ensures [pays-exactly-the-proposed-fee] err == nil ==> ghost.txIn - ghost.txOut == fee
+//@   ensures [single-output-to-the-wallets-own-witness-script] err == nil ==> ghost.txOuts == 1 && unbox(ghost.txLastOut, *bitcoin.TransactionOutput).PublicKeyScript == @p2wpkhOf(@pkhOf(walletPublicKey))
+
+//@ func assembleMovingFundsTransaction
+//@   property C26
+//@   arith math
+//@   opt noframe 1
+//@   modifies ghost.txIn, ghost.txOut, ghost.txIns, ghost.txOuts, ghost.txLastIn, ghost.txLastOut, alloc
+//@   ensures [spends-exactly-the-main-utxo] err == nil ==> ghost.txIns == 1 && ghost.txIn == walletMainUtxo.Value
+//@   ensures [pays-exactly-the-proposed-fee] err == nil ==> ghost.txIn - ghost.txOut == fee
+//@   ensures [one-output-per-target-wallet] err == nil ==> ghost.txOuts == len(targetWallets)
+//@   assert call:TransactionBuilder.AddOutput : [even-split-with-the-remainder-on-the-last-to-the-targets-witness-script] arg0.PublicKeyScript == @p2wpkhOf(targetWallets[i]) && arg0.Value == singleOutputValue + ite(i == len(targetWallets) - 1, remainder, 0) && singleOutputValue * len(targetWallets) + remainder == walletMainUtxo.Value - fee
+//@   loop 1 invariant ghost.txOuts == rangeidx1 && ghost.txIns == 1 && ghost.txIn == walletMainUtxo.Value && ghost.txOut == rangeidx1 * singleOutputValue + ite(rangeidx1 == len(targetWallets), remainder, 0)
+
+//@ func assembleRedemptionTransaction
+//@   property C26
+//@   arith math
+//@   opt noframe 1
+//@   requires forall k int :: 0 <= k && k < len(requests) ==> requests[k] != nil
+//@   modifies ghost.txIn, ghost.txOut, ghost.txIns, ghost.txOuts, ghost.txLastIn, ghost.txLastOut, alloc
+//@   ensures [spends-exactly-the-main-utxo] err == nil ==> ghost.txIns == 1 && ghost.txIn == walletMainUtxo.Value
+//@   ensures [one-output-per-request-plus-an-optional-change] err == nil ==> ghost.txOuts == len(requests) || ghost.txOuts == len(requests) + 1
+//@   loop 1 invariant [each-redeemer-gets-its-script-and-amount-minus-treasury-fee-minus-fee-share] len(outputs) == rangeidx1 && (forall k int :: 0 <= k && k < rangeidx1 ==> outputs[k] != nil && allocated(outputs[k]) && outputs[k].PublicKeyScript == requests[k].RedeemerOutputScript && outputs[k].Value == requests[k].RequestedAmount - requests[k].TreasuryFee - feeShares[k])
+//@   loop 1 invariant ghost.txIns == 1 && ghost.txIn == walletMainUtxo.Value && ghost.txOuts == 0
+//@   loop 2 invariant ghost.txOuts == rangeidx2 && ghost.txIns == 1 && ghost.txIn == walletMainUtxo.Value
+//@   hint call:TransactionBuilder.AddOutput : [outputs-are-added-in-list-order] arg0 == output
+
+//@ ghost feePer int
+//@ ghost feeRem int
+//@ func withRedemptionTotalFee
+//@   property C26
+//@   opt noframe 1
+//@   lit 1
+//@     arith math
+//@     opt noframe 1
+//@     requires len(requests) >= 1
+//@     modifies ghost.feePer, ghost.feeRem
+//@     yields ghost.feePer = feePerRequest
+//@     yields ghost.feeRem = remainder
+//@     ensures [fee-shares-are-an-even-split-with-the-remainder-on-the-last] len(result) == len(requests) && (forall k int :: 0 <= k && k < len(result) ==> result[k] == ghost.feePer + ite(k == len(requests) - 1, ghost.feeRem, 0))
+//@     ensures [fee-shares-add-up-to-the-total-fee] ghost.feePer * len(requests) + ghost.feeRem == totalFee
+//@     loop 1 invariant len(feeShares) == len(requests) && (forall k int :: 0 <= k && k < rangeidx1 ==> feeShares[k] == feePerRequest + ite(k == len(requests) - 1, remainder, 0))
+
+// the fee distribution handed to the assembly returns one share per request
+// (proved above for the only implementation, withRedemptionTotalFee)
+//@ assume func assembleRedemptionTransaction:feeDistribution
+//@   ensures len(result) == len(arg0)
